@@ -79,8 +79,8 @@ CHECKS = {
  "C04": dict(
   technique="exhaustive identity-matrix grid of synthesised call trees through the real DeliverTx with a frame rule on account snapshots, plus explicit-state exploration (DFS, digest dedup) of allowance histories with a per-step allowance rule",
   engine="E1",
-  text="Part A: {signer directly, contract, nested contract} x 11 state-changing staking / distribution / authorization methods x named account {signer, calling contract, third party, other contract} x grant state {none, signer->caller, third->caller, both} (374 scenarios): after the transaction, funds, stake, unbonding entries, withdraw address and granted authorizations of every account other than the signer and the immediate caller must be unchanged (funds may grow), and staking effects on the signer from a contract need a grant. Part B: every sequence <= 3 (thorough 4) over approve / increaseAllowance / decreaseAllowance / revoke / native grant with validator allow-list or of another message type / spend via a contract to two validators with 4 amounts, failure bubbled or swallowed / jump past expiry: a delegation for the signer happens only under a live grant covering validator and amount, a limited grant is reduced by exactly the amount (deleted at 0), and authorization methods do exact arithmetic.",
-  note="Gas price 0. ICS-20 and ERC-20 precompile legs are not included (no channel fixture; no ERC-20 precompile active at this commit).",
+  text="Part A: {signer directly, contract, nested contract} x 16 state-changing staking / distribution / ICS-20 / authorization methods x named account {signer, calling contract, third party, other contract} x grant state {none, signer->caller, third->caller, both} (544 scenarios): after the transaction, funds, stake, unbonding entries, withdraw address and granted authorizations of every account other than the signer and the immediate caller must be unchanged (funds may grow), and staking effects on the signer from a contract need a grant. Part B: every sequence <= 3 (thorough 4) over approve / increaseAllowance / decreaseAllowance / revoke / native grant with validator allow-list or of another message type / spend via a contract to two validators with 4 amounts, failure bubbled or swallowed / jump past expiry: a delegation for the signer happens only under a live grant covering validator and amount, a limited grant is reduced by exactly the amount (deleted at 0), and authorization methods do exact arithmetic. Part C: the same exploration over ICS-20 allowance histories (approve 5|10 on channel-0, increase, decrease 3|all|100, revoke, transfer via a contract on the granted / another channel for 4 amounts with failure bubbled or swallowed, expiry jump) with the escrow account as spend witness: a transfer of the signer's coins from a contract needs a live grant covering channel and amount, reduces the allocation by exactly the amount and leaves the expiry alone. Thorough: depth 5.",
+  note="Gas price 0. ICS-20 runs over transfer channel ends written on ibc-go's localhost connection. No ERC-20 precompile is active at this commit.",
   design="DESIGN.md §3 C04"),
  "C08": dict(
   technique="explicit-state exploration: exhaustive enumeration of all operation sequences <= depth per schedule fixture through the real DeliverTx on branches, with an independent step-function reference of the locked amount evaluated after every successful transaction",
@@ -91,13 +91,13 @@ CHECKS = {
  "C01": dict(
   technique="bounded-exhaustive enumeration of block histories, each executed on a reference node and replayed on independently constructed replicas under enumerated nondeterminism policies (forced map-iteration seed, shifted wall clock, interleaved CheckTx/queries, construction order), all ABCI responses and app hashes compared",
   engine="E2",
-  text="666 histories (quick): every template of an 18-template alphabet (bank, multi-denomination, EVM transfer / create / a call dirtying 5 slots and 4 fresh accounts in unsorted order / bank-precompile query from a contract, staking and distribution precompiles, staking messages, clawback vesting account with two denominations, DAO fund / ratio transfer, liquidation with token-pair registration, ERC20 conversion, failing transactions, double-sign evidence, downtime) alone, and every ordered pair in consecutive blocks and in one block; thorough adds pairs across a 30-day gap and all triples. The concrete blocks recorded on the reference node are replayed on 7 (thorough 23) fresh replicas whose Go map iteration is forced (runtime overlay) to a distinct start bucket/offset, with time.Now shifted by 400 days, CheckTx/gRPC queries interleaved between ABCI calls and a second app object constructed first. DeliverTx (code, data, gas, events, log), EndBlock (validator / consensus-param updates), BeginBlock events and Commit app hash must be identical; divergences are attributed by re-running with the sources separated.",
-  note="One forced random word for all maps at a time. Validator set of 2. ABCI level (no consensus engine).",
+  text="996 histories (quick): every template of a 21-template alphabet (bank, multi-denomination, EVM transfer / create / a call dirtying 5 slots and 4 fresh accounts in unsorted order / bank-precompile query from a contract, staking and distribution precompiles, staking messages, clawback vesting account with two denominations, DAO fund / ratio transfer, liquidation with token-pair registration, ERC20 conversion, ERC20 transfer and ERC20 sent to the module address, full redeem, failing transactions, double-sign evidence, downtime) alone, every ordered pair in consecutive blocks and in one block; four governance flows that really pass (EVM params, fee-market params, ERC20 params, token-pair toggle) alone and followed by every template once in effect; five life-cycle chains (switch off, use, switch on, use); thorough adds pairs across a 30-day gap and all triples. The concrete blocks recorded on the reference node are replayed on 7 (thorough 23) fresh replicas whose Go map iteration is forced (runtime overlay) to a distinct start bucket/offset, with time.Now shifted by 400 days, CheckTx/gRPC queries interleaved between ABCI calls (including eth_call / estimateGas that execute the EVM at the latest and at old heights, old heights first on some replicas) and a second app object constructed first. DeliverTx (code, data, gas, events, log), EndBlock (validator / consensus-param updates), BeginBlock events and Commit app hash must be identical; divergences are attributed by re-running with the sources separated.",
+  note="One forced random word for all maps at a time. Validator set of 2. ABCI level (no consensus engine). The DeliverTx log is compared up to its first line break (SDK errors formatted with %+v append the process call stack; ABCI declares the log non-deterministic).",
   design="DESIGN.md §3 C01"),
  "C20": dict(
   technique="bounded-exhaustive enumeration of block histories x every block boundary as a restart point (crash-point enumeration), restarted replica compared call by call with a never-stopped reference node",
   engine="E2",
-  text="183 histories (quick; thorough ~1000): every base template alone, a third (thorough: all) of ordered pairs, and governance flows that really pass and execute (EVM params: EnableCreate off and one precompile deactivated; fee-market params with a base-fee activation height; ERC20 params) alone and followed by every base template once in effect. For EVERY boundary k of every history a replica is stopped after Commit k and a new Haqq is constructed on the database (same DB / key-by-key copy / twice). Compared with the reference: Info() height and app hash, a battery of 27 gRPC queries after every commit, every later ABCI response and app hash.",
+  text="261 histories (quick; thorough ~1400): every base template alone, a third (thorough: all) of ordered pairs, governance flows that really pass and execute (EVM params: EnableCreate off and one precompile deactivated; fee-market params with a base-fee activation height; ERC20 params; token-pair conversion toggle) alone and followed by every base template once in effect, and five life-cycle chains of 5-6 steps in which a switch is turned off and on again with uses in between (token pair, ERC20 hook, EVM params, fee market). For EVERY boundary k of every history a replica is stopped after Commit k and a new Haqq is constructed on the database (same DB / key-by-key copy / twice). Compared with the reference: Info() height and app hash, a battery of 27 gRPC queries after every commit, every later ABCI response and app hash.",
   note="MemDB kept across the restart; torn writes inside a commit are not modelled. Software-upgrade plans cannot be exercised (the upgrade module panics by design for a scheduled plan whose handler is already in the binary).",
   design="DESIGN.md §3 C20"),
  "C14": dict(
@@ -115,8 +115,8 @@ CHECKS = {
  "C19": dict(
   technique="bounded-exhaustive enumeration of block histories, each followed by an export -> InitChain on a fresh node -> export cycle with a leaf-by-leaf diff of the two genesis documents, a query battery and invariants",
   engine="E2",
-  text="125 histories (quick): idle chain, every template (18 base + 3 governance flows) alone exported after settling and exported right after its block, a quarter (thorough: all) of ordered pairs, thorough: one chain of all templates. A's export is imported into a fresh Haqq by real InitChain + Commit, exported again and the two JSON documents are compared leaf by leaf (per module / field); 27 gRPC queries are compared on both nodes; each named module's exported state must pass its own ValidateGenesis; all invariants must hold on the imported node.",
-  note="ibc 09-localhost latest_height is the exporting height by definition and is excluded from the equality. ValidateGenesis of third-party modules (ibc's connection-localhost) is not demanded.",
+  text="167 histories (quick): idle chain, every template (21 base + 4 governance flows) alone exported after settling and exported right after its block, a quarter (thorough: all) of ordered pairs plus curated pairs whose second step consumes what the first created (liquidate then full redeem / convert / liquidate again, delegate then undelegate, ...), thorough: one chain of all templates. A's export is imported into a fresh Haqq by real InitChain + Commit, exported again and the two JSON documents are compared leaf by leaf (per module / field); 27 gRPC queries are compared on both nodes; each named module's exported state must pass its own ValidateGenesis; all invariants must hold on the imported node.",
+  note="ibc 09-localhost latest_height is the exporting height by definition and is excluded from the equality. ValidateGenesis of third-party modules (ibc's connection-localhost) is not demanded. A history that empties the validator set (halted chain) is skipped and counted.",
   design="DESIGN.md §3 C19"),
  "C10": dict(
   technique="explicit-state exploration: exhaustive enumeration of conversion sequences <= depth over five token pairs on the real msg servers and DeliverTx, backing invariants in every state and an exact-or-nothing step oracle",
